@@ -9,13 +9,15 @@ WT=$(mktemp -d /tmp/confirm_${ID}_${NAME}_XXXX)
 rmdir $WT
 git -C /repo worktree add -q --detach $WT HEAD || exit 2
 mkdir -p $OUT
-cp $SRC/patch.diff $OUT/patch.diff; cp $SRC/demo.py $OUT/demo.py; [ -f $SRC/README.md ] && cp $SRC/README.md $OUT/README.md
+if [ "$(readlink -f $SRC)" != "$(readlink -f $OUT)" ]; then cp $SRC/patch.diff $OUT/patch.diff; cp $SRC/demo.py $OUT/demo.py; [ -f $SRC/README.md ] && cp $SRC/README.md $OUT/README.md; fi
 cd $WT
 PYTHONPATH=$WT /venv/bin/python -W ignore $OUT/demo.py > $OUT/demo_clean.txt 2>&1; D0=$?
 git apply $OUT/patch.diff || { echo "patch does not apply"; git -C /repo worktree remove --force $WT; exit 2; }
 PYTHONPATH=$WT /venv/bin/python -W ignore -c "import taurex" >/dev/null 2>&1; IMP=$?
 PYTHONPATH=$WT /venv/bin/python -W ignore $OUT/demo.py > $OUT/demo_patched.txt 2>&1; D1=$?
 TESTS=skipped
+# fast mode keeps the test result of the last full confirmation
+[ "$MODE" != full ] && [ -f $OUT/confirm.txt ] && TESTS=$(sed -n 's/.*tests\[\(.*\)\] check_rc.*/\1/p' $OUT/confirm.txt | head -1) && [ -z "$TESTS" ] && TESTS=skipped
 if [ "$MODE" = full ]; then
   PYTHONPATH=$WT /venv/bin/python -m pytest -q -p no:cacheprovider --timeout=900 --continue-on-collection-errors --junitxml=$WT/junit.xml > $WT/pytest.txt 2>&1
   TESTS=$(/venv/bin/python - $WT/junit.xml <<'PY'
